@@ -54,6 +54,9 @@ class FactFlow:
             return self._kill(facts, names)
         if node.kind == 'handler':
             return self._kill(facts, {a.name}) if a.name else facts
+        if node.kind == 'case':
+            names = {sub.name for sub in ast.walk(a.pattern) if isinstance(sub, (ast.MatchAs, ast.MatchStar)) and sub.name}
+            return self._kill(facts, names)
         if node.kind != 'stmt' or a is None:
             return facts
         if isinstance(a, ast.Assign):
